@@ -82,11 +82,25 @@ def case_digest(case):
                         .encode('utf-8')).hexdigest()[:16]
 
 
+TIER = 'quick'
+
+# thorough tier: every third run is drawn from a deeper variant of the
+# property's profile (larger tables, longer values, longer histories)
+def _deep(prop):
+    from sim import gen
+    p = gen.profile(prop)
+    lo, hi = p['hist']
+    return {'rows': (0, 25), 'big': 0.45,
+            'hist': (lo, min(12, max(hi + 1, int(hi * 1.6))))}
+
+
 def gen_case(prop, seed, run):
     from sim import gen
     if prop == 'C15' and run >= MATRIX_BASE:
         from sim import genmatrix
         return genmatrix.generate_matrix(seed, run - MATRIX_BASE)
+    if TIER == 'thorough' and run % 3 == 2:
+        return gen.generate(prop, seed, run, overrides=_deep(prop))
     return gen.generate(prop, seed, run)
 
 
@@ -264,8 +278,8 @@ def alt_hash_digests(prop, seed, runs, hashseed):
         if not part:
             continue
         p = subprocess.Popen(
-            [PY, os.path.join(VERIF, 'bin', 'check'), prop, '--digests',
-             str(seed), ','.join(str(r) for r in part)],
+            [PY, os.path.join(VERIF, 'bin', 'check'), prop, '--tier', TIER,
+             '--digests', str(seed), ','.join(str(r) for r in part)],
             stdout=subprocess.PIPE, stderr=subprocess.PIPE, env=env,
             cwd=VERIF)
         procs.append(p)
@@ -682,6 +696,8 @@ def main(argv):
     ap.add_argument('--digests', nargs=2)
     ap.add_argument('--case-digest')
     a = ap.parse_args(argv)
+    global TIER
+    TIER = a.tier if a.tier in BUDGET else 'quick'
     if a.prop not in CLAIMED:
         print('property %s is not claimed (see MANIFEST.not_applicable)' %
               a.prop)
